@@ -78,11 +78,13 @@ type flow struct {
 	now0      time.Time
 }
 
+const pidLen = 15 // long enough for both account identifiers
+
 var allModules = []string{"auth", "confirm", "lock", "logout", "oauth2", "otp", "recover", "register", "remember"}
 
 const (
 	pid0 = "a@x"
-	pid1 = "b@y"
+	pid1 = "oauth2;;prov;;u" // an identifier of the shape the library builds for OAuth2 users
 )
 
 func hashOTP(otp string) string {
@@ -129,7 +131,7 @@ func newFlow(o flowOpts) *flow {
 					if verif.Bool("oauth2_details_fail") {
 						return nil, world.ErrInjected
 					}
-					return map[string]string{"uid": verif.String("oauth2_uid", 3), "email": "o@z"}, nil
+					return map[string]string{"uid": verif.String("oauth2_uid", 2), "email": "o@z"}, nil
 				},
 			},
 		}
@@ -175,6 +177,9 @@ func (f *flow) symbolicAccount(i int, pid string) *acct {
 	a := &acct{pid: pid}
 	rec := world.NewUser(pid, "mail"+n+"@m")
 	u := &rec.UserBase
+	if pid == pid1 {
+		u.OAuth2Provider, u.OAuth2UID = "prov", "u" // account 1 is an OAuth2 user (consistent with its pid)
+	}
 	a.hasPw = verif.Bool("hasPw" + n)
 	a.pw = verif.String("pw"+n, 3)
 	u.Password = verif.Ite(a.hasPw, world.MakeHash(a.pw, "saltsal"+n), "")
@@ -255,7 +260,7 @@ func (f *flow) symbolicSession() {
 		var v string
 		switch k {
 		case authboss.SessionKey, totp2fa.SessionTOTPPendingPID, sms2fa.SessionSMSPendingPID:
-			v = verif.String("S_"+k, 3) // a PID: one of the two accounts or an unknown one
+			v = verif.String("S_"+k, pidLen) // a PID: one of the two accounts or an unknown one
 		case authboss.SessionLastAction:
 			v = verif.Time("S_last_action").Format(time.RFC3339)
 		case sms2fa.SessionSMSLast:
@@ -293,7 +298,7 @@ func (f *flow) account(pid string) *acct {
 // symbolicValues: an arbitrary request body.
 func symbolicValues() *world.Values {
 	return &world.Values{
-		PID:          verif.String("v_pid", 3),
+		PID:          verif.String("v_pid", pidLen),
 		Password:     verif.String("v_password", 3),
 		Token:        verif.String("v_token", 8),
 		Code:         verif.String("v_code", 6),
@@ -345,7 +350,7 @@ type valuesAlias struct{}
 // symbolicValues2: a second arbitrary request body (distinct input labels).
 func symbolicValues2() *world.Values {
 	return &world.Values{
-		PID:          verif.String("v2_pid", 3),
+		PID:          verif.String("v2_pid", pidLen),
 		Password:     verif.String("v2_password", 3),
 		Token:        verif.String("v2_token", 8),
 		Code:         verif.String("v2_code", 6),
